@@ -5,7 +5,7 @@
    l1of o / l2of o = sparsity / ridge coefficient (0 when None), qp_f / qp_grad (Base/RSum.v) the
    penalised objective  v'Gv/2 - b'v + l1 sum v + l2 sum v^2  and its gradient. *)
 From Coq Require Import List Arith Reals Lra QArith Qabs.
-From TLV Require Import Base.Ops Base.Tensor Base.RSum Model.Nnls Proofs.NnlsProofs Proofs.NnlsProofsFista Proofs.NnlsProofsAset Proofs.NnlsProofsAsetCert Proofs.NnlsProofsAsetFull Proofs.NnlsProofsExamples.
+From TLV Require Import Base.Ops Base.Tensor Base.RSum Model.Nnls Proofs.NnlsProofs Proofs.NnlsProofsDescent Proofs.NnlsProofsFista Proofs.NnlsProofsAset Proofs.NnlsProofsAsetCert Proofs.NnlsProofsAsetFull Proofs.NnlsProofsExamples.
 Import ListNotations.
 Open Scope R_scope.
 
@@ -71,6 +71,35 @@ Theorem C13_hals_loop_monotone : forall (UtM UtU : list (list R)) (r n : nat) (o
   <= qp_f r (Gf UtU) (bf UtM j) (l1of o) (l2of o) (colf V j).
 Proof. exact loop_monotone. Qed.
 Print Assumptions C13_hals_loop_monotone.
+
+(* (ii') SUFFICIENT DECREASE (the key inequality of the convergence analysis of block coordinate descent): a pass from
+   a feasible V lowers every column's objective by at least sum_k (UtU[k,k]/2 + ridge) (change of entry (k,j))^2 *)
+Theorem C13_hals_pass_sufficient_decrease : forall (UtM UtU : list (list R)) (r n : nat) (o : @hopts R),
+  wfm r r UtU -> wfm r n UtM -> h_nz o = false ->
+  (forall i j, Gf UtU i j = Gf UtU j i) ->
+  (forall k, (k < r)%nat -> Gf UtU k k <> 0 -> 0 < Gf UtU k k + 2 * l2of o) ->
+  forall (V : list (list R)) (j : nat), wfm r n V ->
+  (forall i j', (i < r)%nat -> (j' < n)%nat -> h_eps o <= mget Rops V i j') -> (j < n)%nat ->
+  qp_f r (Gf UtU) (bf UtM j) (l1of o) (l2of o) (colf (hals_pass Rops UtM UtU n o V) j)
+  <= qp_f r (Gf UtU) (bf UtM j) (l1of o) (l2of o) (colf V j)
+     - rsum r (fun k => (Gf UtU k k / 2 + l2of o) * (mget Rops (hals_pass Rops UtM UtU n o V) k j - mget Rops V k j)^2).
+Proof. exact pass_sufficient_decrease. Qed.
+Print Assumptions C13_hals_pass_sufficient_decrease.
+
+(* STRICT DESCENT: a pass from a feasible V that lowers no column's objective is a fixed point, i.e. (by
+   C13_hals_fixed_point_kkt) V is a KKT point; at every feasible non-KKT point some column's objective strictly decreases *)
+Theorem C13_hals_strict_descent : forall (UtM UtU : list (list R)) (r n : nat) (o : @hopts R),
+  wfm r r UtU -> wfm r n UtM -> h_nz o = false ->
+  (forall i j, Gf UtU i j = Gf UtU j i) ->
+  (forall k, (k < r)%nat -> Gf UtU k k <> 0 -> 0 < Gf UtU k k + 2 * l2of o) ->
+  forall V : list (list R), wfm r n V ->
+  (forall i j, (i < r)%nat -> (j < n)%nat -> h_eps o <= mget Rops V i j) ->
+  (forall k, (k < r)%nat -> Gf UtU k k <> 0) ->
+  (forall j, (j < n)%nat -> qp_f r (Gf UtU) (bf UtM j) (l1of o) (l2of o) (colf V j)
+                            <= qp_f r (Gf UtU) (bf UtM j) (l1of o) (l2of o) (colf (hals_pass Rops UtM UtU n o V) j)) ->
+  hals_pass Rops UtM UtU n o V = V.
+Proof. exact pass_no_decrease_fixed. Qed.
+Print Assumptions C13_hals_strict_descent.
 
 (* (iii) FIXED POINT => KKT (at the bound epsilon; epsilon = 0: V >= 0, g >= 0, V g = 0), l1 and ridge inside g *)
 Theorem C13_hals_fixed_point_kkt : forall (UtM UtU : list (list R)) (r n : nat) (o : @hopts R),
